@@ -782,8 +782,9 @@ func (multi *MultiEpoch) processSlotTransactions(
 		}
 
 		if filter.Failed != nil && !(*filter.Failed) { // If failed is false, we should filter out failed transactions
-			err := getErr(meta)
-			if err != nil {
+			// A transaction stored without metadata is not known to have failed: the address-index path hands it over
+			// with a nil meta, the block path with an empty status; both keep it.
+			if meta != nil && getErr(meta) != nil {
 				return false
 			}
 		}
